@@ -122,6 +122,13 @@ impl Ctx {
             let _ = t.flush();
         }
     }
+    /// the case returned: a death after this line did not happen inside a monitored case
+    pub fn trace_end(&mut self) {
+        if let Some(t) = self.trace.as_mut() {
+            let _ = writeln!(t, "END");
+            let _ = t.flush();
+        }
+    }
     pub fn violate(
         &mut self,
         prop: &str,
